@@ -9,6 +9,7 @@ import core
 import fracexec
 import rsmcoef
 import t3_util as T3
+import u4_util as U4
 from fracexec import frac_str, frac_list
 
 MODULE = 'UwgVerif.Props.C16'
@@ -646,6 +647,121 @@ def live_profiles(chk, ndays=1, coef_rec=None, hyp_rec=None):
     return rec, bad, shapes, crash
 
 
+# ----------------------------------------------------------------------------- circumstances (round 4)
+def u4_install(sink, ctx):
+    """C16 around every real vdm call (doubles): the hypotheses of vdm_max_principle before it; after it the lowest
+    level is the measured rural temperature, the top two levels are equal, no level leaves the range of the profile the
+    step started from (1e-9 * max|T|), the heat gained by the interior column equals dt times the flux through the
+    lowest interface, and the profile solves the system handed to invert (residual within 64 ulp per row)."""
+    core.repo_python_path()
+    from uwg.RSMDef import RSMDef
+    o_vdm = RSMDef.__dict__['vdm']
+    o_eq = RSMDef.__dict__['diffusion_equation']
+    o_inv = RSMDef.__dict__['invert']
+    last = {}
+
+    def spy_inv(nz, A, C):
+        last['sys'] = (copy.deepcopy(A), list(C))
+        return o_inv.__func__(nz, A, C)
+
+    def spy_eq(nz, dt, co, da, daz, cd, dz):
+        args = (nz, dt, list(co), list(da), list(daz), list(cd), list(dz))
+        r = o_eq.__func__(nz, dt, co, da, daz, cd, dz)
+        last['eq'] = args + (list(r),)
+        return r
+
+    def vdm(self, forc, rural, parameter, simTime):
+        hyp = rsmcoef.live_hyps(self, forc, parameter, simTime)
+        sink('vdm:hypotheses', ('hypotheses of vdm_max_principle violated before the call: ' + '; '.join(hyp)) if hyp else None)
+        pre = list(self.tempProf)
+        last.clear()
+        out = o_vdm(self, forc, rural, parameter, simTime)
+        x, n = list(self.tempProf), self.nzref
+        start = [forc.temp] + pre[1:]
+        scale = max(abs(v) for v in start + x)
+        tol = 1e-9 * scale
+        lo, hi = min(start[:n - 1]), max(start[:n - 1])
+        msg = None
+        if 'eq' not in last:
+            msg = 'vdm returned without solving the diffusion equation'
+        elif not all(v == v and abs(v) != float('inf') for v in x):
+            msg = 'non-finite temperature profile'
+        elif x[0] != forc.temp:
+            msg = 'lowest level %r is not the measured rural air temperature %r (h_temp %r, level of the sensor nz0 = %r)' % (
+                x[0], forc.temp, ctx.get('h_temp'), getattr(self, 'nz0', None))
+        elif abs(x[n - 1] - x[n - 2]) > tol:
+            msg = 'top two levels differ: %r vs %r' % (x[n - 1], x[n - 2])
+        elif min(last['eq'][5]) >= 0 and not all(lo - tol <= v <= hi + tol for v in x):
+            i = [not (lo - tol <= v <= hi + tol) for v in x].index(True)
+            msg = 'level %d = %r outside [%r, %r] of the profile the step started from' % (i, x[i], lo, hi)
+        else:
+            nz, dt, co, da, daz, cd, dz, res = last['eq']
+            if res != x:
+                msg = 'the profile kept by the object is not the solution returned by diffusion_equation (first ' \
+                      'difference at level %d)' % [a != b for a, b in zip(res, x)].index(True)
+            else:
+                cddz1 = 2 * daz[1] * cd[1] / (dz[1] + dz[0])
+                lhs = sum(da[i] * dz[i] * (x[i] - co[i]) for i in range(1, nz - 1))
+                rhs = dt * cddz1 * (x[0] - x[1])
+                cap = sum(da[i] * dz[i] for i in range(1, nz - 1))
+                if abs(lhs - rhs) > 1e-9 * cap * scale:
+                    msg = 'interior heat content changed by %r but the flux through the lowest interface supplied %r ' \
+                          '(rural obstacle height %r: displacement height %r, lowest level %r m)' % (
+                              lhs, rhs, ctx.get('h_obs'), getattr(self, 'disp', None), self.z[0])
+                elif 'sys' in last:
+                    msg = float_residual_msg(last['sys'][0], last['sys'][1], x, 'row')
+        sink('vdm:' + ('unstable' if rural.sens > 1e-2 else 'stable'), msg)
+        return out
+    RSMDef.vdm = vdm
+    RSMDef.diffusion_equation = staticmethod(spy_eq)
+    RSMDef.invert = staticmethod(spy_inv)
+
+    def undo():
+        RSMDef.vdm = o_vdm
+        RSMDef.diffusion_equation = o_eq
+        RSMDef.invert = o_inv
+    return undo
+
+
+def u4_after_generate(m, spec, sink, ctx):
+    ctx['h_temp'], ctx['h_obs'] = m.h_temp, m.h_obs
+    hyp = rsmcoef.grid_ok(m.RSM.nzref, m.RSM.z, m.RSM.dz)
+    sink('generate:grid', None if hyp else 'the grid of the generated RSM object violates GridOK')
+
+
+U4_HOOKS = U4.Hooks(install=u4_install, after_generate=u4_after_generate,
+                    kernels=[('uwg.RSMDef', 'RSMDef', 'vdm', (1, 2, 3, 4)),
+                             ('uwg.RSMDef', 'RSMDef', 'diffusion_coefficient', (2, 3, 10, 11)),
+                             ('uwg.RSMDef', 'RSMDef', 'diffusion_equation', (2, 3, 4, 5, 6))])
+
+
+def circumstance_ties(chk, quick):
+    work = chk.work()
+    par_t, epw_t = U4.toronto()
+    scen = [U4.make_spec('singapore 1 Jan, sensor at 10 m (nz0 = 3), rural obstacles 5 m (displacement height above the '
+                         'lowest level)', month=1, day=1, nday=1, dtsim=300, h_temp=10.0, h_obs=5.0),
+            U4.make_spec('singapore 1 Jul, shipped heights (h_temp 2, h_obs 0.1)', month=7, day=1, nday=1, dtsim=300)]
+    if not quick:
+        scen += [U4.make_spec('toronto 10 Jan, sensor at 30 m, obstacles 15 m, wind mast 50 m', epw=epw_t, param=par_t,
+                              month=1, day=10, nday=2, dtsim=300, zone='5A', h_temp=30.0, h_obs=15.0, h_wind=50.0),
+                 U4.make_spec('singapore 30 Apr, h_temp 2.5, h_obs 3.9, dt 150', month=4, day=30, nday=2, dtsim=150,
+                              h_temp=2.5, h_obs=3.9)]
+    counts, nbad, _ = U4.live_battery(
+        chk, 'C16', U4_HOOKS, scen, U4.others_default(work), 'C16 statement on the vdm steps of live runs',
+        full=1 if quick else len(scen), required=('vdm:', 'generate:grid'))
+    chk.direct('C16-circumstances(live runs: observers, logging, -O, CLI, other models, caller data)',
+               sum(counts.values()), len(scen),
+               'oracle = around every real vdm call: hypotheses of vdm_max_principle before; after it lowest level = '
+               'measured rural temperature (exact), top two levels equal, no level outside the range of the profile the '
+               'step started from (1e-9 max|T|), interior heat gain = dt x flux through the lowest interface, the profile '
+               'kept by the object is the one diffusion_equation returned and solves the system handed to invert (64 '
+               'ulp per row). Kernel routines rendered around their calls: RSMDef.vdm (forcing, rural element, '
+               'parameters, clock read-only), diffusion_coefficient (grid and profile read-only), diffusion_equation '
+               '(all five lists read-only). Scenarios with the sensor above the first level and obstacles taller than '
+               'the first level: %s. %s' % ('; '.join(s_['label'] for s_ in scen), U4.BATTERY_RULE),
+               mismatches=nbad, branches=counts)
+
+
 # ----------------------------------------------------------------------------- check
 def run(chk):
     chk.proof(MODULE, THEOREMS, extra_modules=[MODULE_COEF])
@@ -813,12 +929,23 @@ def run(chk):
     chk.notes.append('theorems are proved for nz >= 2 (the property asks nz >= 3); with nz = 1 the '
                      'code returns [0] and with nz = 0 it raises IndexError')
 
+    circumstance_ties(chk, quick)
+
     # ---- second part: where cd, da, daz come from (diffusion_coefficient, vdm)
     rsmcoef.run_coef(chk)
 
 
 def replay(chk, path):
     v = json.load(open(path))
+    if isinstance(v.get('case'), dict) and 'scenario' in v['case']:
+        # a finding of the circumstance ties: the scenarios derive from the seed, re-run them
+        core.repo_python_path()
+        circumstance_ties(chk, chk.tier == 'quick')
+        for x in chk.violations[:3]:
+            print('observed:', str(x['observed'])[:600])
+        if chk.violations:
+            print('VIOLATION property=C16 replay=%s' % path)
+        return 1 if chk.violations else 0
     r = rsmcoef.replay_case(v['case'])
     if r is not None:
         print(r[1])
